@@ -323,6 +323,38 @@ func ruleSelf(c *Ctx) {
 				}
 				v := unwrapConv(st.Val)
 				tn := derefNamed(v.Type())
+				if phi, isPhi := v.(*ssa.Phi); isPhi && tn != nil && tn.Obj().Name() == "container" {
+					// an interface-typed local assigned one of several containers
+					n++
+					key := fmt.Sprintf("%s: root store #%d installs a container whose self is set", fname(fn), n)
+					bad := ""
+					for _, e := range phi.Edges {
+						al, isAl := unwrapConv(e).(*ssa.Alloc)
+						if !isAl {
+							bad = "one of the containers is " + describeValue(unwrapConv(e)) + ", not a literal"
+							continue
+						}
+						has := false
+						for _, ref := range *al.Referrers() {
+							if fa, ok := ref.(*ssa.FieldAddr); ok && fieldName(fa.X.Type(), fa.Field) == "self" {
+								for _, r2 := range *fa.Referrers() {
+									if s2, ok := r2.(*ssa.Store); ok && !isNilConst(s2.Val) {
+										has = true
+									}
+								}
+							}
+						}
+						if !has {
+							bad = "the " + typeShort(al.Type()) + " literal at " + b.posOf(al) + " does not set self"
+						}
+					}
+					if bad == "" {
+						l.add("R-SELF", "v5", key, b.posOf(st), Discharged, "every container that can be installed here is a literal that sets self", true)
+					} else {
+						l.add("R-SELF", "v5", key, b.posOf(st), Violated, bad+": the empty reference token then yields nothing, e.g. `add \"\" {…}` followed by `copy from \"\"` inserts null instead of a copy of the document", true)
+					}
+					return
+				}
 				if tn == nil || (tn.Obj().Name() != "partialDoc" && tn.Obj().Name() != "partialArray") {
 					return
 				}
